@@ -215,6 +215,8 @@ impl Iterator for AnalyzeIter<'_> {
     type Item = AnalyzeEntry;
 
     fn next(&mut self) -> Option<Self::Item> {
+        #[cfg(regexml_verif)]
+        crate::verif::tick(1);
         if let Some(prev_end) = self.prev_end {
             if let Some(substring) = self.next_substring.take() {
                 // we've added a non-match, so now added the match that follows
